@@ -124,7 +124,7 @@ _escapes_re = re.compile(r''' ( \\
 (?: [ntbrfva]
   | \\
   | "
-  | [0-9]{1,3}
+  | [0-7]{1,3}
   | x[0-9a-fA-F]{1,2}
   ))+
 ''', re.VERBOSE)
@@ -133,10 +133,19 @@ _short_x_escape_re = re.compile(r'''
     \\x ([0-9a-fA-F]) (?= \\ | $ )
 ''', re.VERBOSE)
 
+_big_octal_escape_re = re.compile(r'''
+    \\ ([4-7][0-7]{2})
+''', re.VERBOSE)
+
+def _wrap_octal_escape(match):
+    # like gettext, keep only the low 8 bits
+    return f'\\{int(match.group(1), 8) & 0xFF:o}'
+
 def polib_unescape(s):
     def unescape(match):
         s = match.group()
         s = _short_x_escape_re.sub(r'\\x0\1', s)
+        s = _big_octal_escape_re.sub(_wrap_octal_escape, s)
         result = ast.literal_eval(f"b'{s}'")
         try:
             return result.decode('ASCII')  # pylint: disable=no-member
